@@ -652,6 +652,10 @@ FIXED_PROBES = [
     # a let binding decides
     ([('K', '(contains("ZQ")) and k > 20', 'Fees', 'Bank', {'lets': [('k', 'amount * 2')]}), ('Z', 'contains("ZQ")', 'Misc', 'Other', {})], 'first_match', 'ZQ xx 77', 15.0),
     ([('K', '(contains("ZQ")) and k > 20', 'Fees', 'Bank', {'lets': [('k', 'amount * 2')]}), ('Z', 'contains("ZQ")', 'Misc', 'Other', {})], 'first_match', 'ZQ xx 77', 5.0),
+    # amounts in cents that have no exact binary form: --amount 49.99 is the number 49.99 of the statements
+    ([('Exact', 'contains("ZQ") and amount == 49.99', 'Fees', 'Exact', {}), ('Z', 'contains("ZQ")', 'Misc', 'Other', {})], 'first_match', 'ZQ xx 77', 49.99),
+    ([('Near', 'contains("ZQ") and abs(amount - 2.99) < 0.01', 'Fees', 'Near', {}), ('Z', 'contains("ZQ")', 'Misc', 'Other', {})], 'first_match', 'ZQ xx 77', 2.99),
+    ([('UpTo', 'contains("ZQ") and amount <= 15.1 and amount * 2 > 30', 'Fees', 'UpTo', {}), ('Z', 'contains("ZQ")', 'Misc', 'Other', {})], 'most_specific', 'ZQ xx 77', 15.1),
 ]
 
 
